@@ -15,7 +15,7 @@ RULE = ("BFS over histories of <= 4 (quick) / <= 5 (thorough) of add_class(t, pr
         "/ has_class(t) for t in {foo, foobar, foo-x, bar} from 7 initial class values (absent, odd "
         "whitespace, duplicates, tab/newline separated, HTML()); BFS over add_style histories of <= 3 "
         "(quick) / <= 4 over 3 valid and 3 invalid declarations from 2 initial values; css(): every "
-        "ordered keyword selection of size <= 3 over 5 names x 6 values x 2 separators. Non-trivial = "
+        "ordered keyword selection of size <= 3 over 5 names x 11 values x 2 separators. Non-trivial = "
         "history with >= 2 operations of which >= 1 changes the state or must fail.")
 ASSUMPTIONS = [
     "R7 compares whitespace-token lists (class) and ';'-separated declaration lists (style), not raw "
@@ -43,6 +43,10 @@ def class_ops(hist):
     for t in TOKENS:
         ops += [["add", t, False], ["add", t, True], ["remove", t], ["has", t]]
     return ops
+
+
+import re as _re
+_CLASS_RE = _re.compile(r' class="([^"]*)"')
 
 
 def tokens_of(tag):
@@ -73,8 +77,8 @@ def class_step(hist):
             if got == want:
                 model = want
                 changed += 1
-            elif t in old and got == old:
-                model = old
+            elif old and got == old and (old[0] == t if prepend else old[-1] == t):
+                model = old     # token already in the requested position: leaving the list unchanged is fine
             else:
                 v.append(("add_class:tokens", f"class tokens after add_class({t!r}, prepend={prepend})",
                           {"observed": got, "expected": want}))
@@ -106,6 +110,13 @@ def class_step(hist):
         # other attributes and children never disturbed
         if tag.attrs.get("id") != "i" or list(tag.children) != ["c"]:
             v.append(("class-op:collateral", "a class operation changed something else", {}))
+        # the rendering (direct entry point, same object every time) reflects the current class value
+        out = tag.get_html_string()
+        m = _CLASS_RE.search(out)
+        shown = None if m is None else __import__("html").unescape(m.group(1)).split()
+        if shown != model and not v:
+            v.append(("class-op:stale-rendering", f"get_html_string() after {op} shows class tokens {shown}, "
+                      f"the tag holds {model}", {"observed": out}))
         if v:
             if last:
                 viols = v
@@ -189,7 +200,7 @@ def style_step(hist):
 
 # ----------------------------------------------------------------------- css
 CSS_NAMES = ["font_size", "backgroundColor", "margin_TOP", "x", "X"]
-CSS_VALUES = ["1px", 3, None, "", "Red #FFF", 0]
+CSS_VALUES = ["1px", 3, None, "", "Red #FFF", 0, 0.0, 1, 1.0, True, "url(data:image/png;base64,AA;b)"]
 
 
 def ref_css_name(k):
@@ -208,7 +219,7 @@ def css_cases():
     cases = []
     for n in range(0, 4):
         for names in itertools.permutations(CSS_NAMES, n):
-            for vals in itertools.product(CSS_VALUES, repeat=n):
+            for vals in itertools.product(CSS_VALUES if n < 3 else CSS_VALUES[:6], repeat=n):
                 for sep in ("", "\n"):
                     cases.append([list(names), list(vals), sep])
     return cases
